@@ -134,6 +134,15 @@ def check_c19(chk, args):
     caches = Caches()      # pristine: nothing has been printed in this interpreter yet
     n = len(C.FACTORIES)
     base = baselines(n)
+    values = [f() for _, f in C.FACTORIES]     # the SAME objects are printed again and again
+    # Keys of one type that cannot be ordered among themselves are sorted by the IDENTITY of the key objects (as
+    # pprint does): the text is a function of the value within one interpreter only, so for those entries the
+    # baseline is the first print in THIS interpreter (pristine caches, nothing printed before), not in another one.
+    for i, (name, _) in enumerate(C.FACTORIES):
+        if name in getattr(C, 'IDENTITY_ORDERED', ()):
+            caches.reset()
+            base[i]['text'] = C.print_one(values[i])
+            caches.reset()
     texts = {}
     for b in base:
         b['tid'] = texts.setdefault(b['text'], len(texts) + 1)
@@ -150,7 +159,6 @@ def check_c19(chk, args):
     kw_variants = [{}]
     cases = []
     meta = []
-    values = [f() for _, f in C.FACTORIES]     # the SAME objects are printed again and again
     snaps = [snapshot(v) for v in values]
     for hid, h in enumerate(hs):
         caches.reset()
